@@ -168,7 +168,7 @@ func boundaryGen(r *rand.Rand, n int, tier string, emit func(Case)) {
 		var g geom.Geometry
 		sel := r.Intn(8)
 		if big {
-			l, sel = bigLattice(r), -1
+			l, sel = bigLatticeTo(r, 12, 16), -1 // point location works with the sixth power of the side (DESIGN 4.4)
 		}
 		switch sel {
 		case -1:
